@@ -151,7 +151,7 @@ def zenc(z):
     return [z < 0, abs(z)]
 
 
-def case_value(c, o, tunnel_fixed, traffic_fixed):
+def case_value(c, o, tunnel_fixed, traffic_fixed, stream_fixed=True):
     m = c["mode"]
     if m == "dispose_hist":
         res = [None if r is None else [list(r)] for r in o["results"]]
@@ -172,7 +172,8 @@ def case_value(c, o, tunnel_fixed, traffic_fixed):
         return [3, bool(o["serial"]), [zenc(a) for a in o["adds"]], o["reporters"], list(o["sched"]), zenc(o["stats_sent"]),
                 [zenc(d) for d in o["deltas_sent"]], zenc(o["last_sent"])]
     if m == "stream_gate":
-        return [4, c["reads"], o.get("result", "").startswith("panic"), True]
+        res = o.get("result", "")
+        return [4, c["reads"], stream_fixed, 2 if res.startswith("panic") else (1 if res == "err" else 0), o.get("after") == "err"]
     return None
 
 
@@ -183,12 +184,13 @@ def run(ctx, only_cases=None):
     gen_changed = vlib.write_if_changed(os.path.join(vlib.COQ, "Gen", "C16.v"), gen_text)
     flag = lambda name: re.search(r"Definition %s : bool := (true|false)\." % name, gen_text).group(1) == "true"
     tunnel_fixed, traffic_fixed = flag("TunnelCloseCasRetried"), flag("TrafficReportSerialised")
+    stream_fixed = not flag("StreamCloseNilsReader")
     broken = None
     try:
         pinfo = vlib.coq_properties("C16")
         vlib.coq_make(["Proofs/SideC16.vo"])
         vlib.proof_coverage(ctx, pinfo, "make -C coq Properties/C16.vo Proofs/SideC16.vo && coqc Properties/C16.v (Print Assumptions audit)",
-                            extra_obligations=4)
+                            extra_obligations=5)
     except vlib.Broken as b:
         broken = b
     ibin = None
@@ -240,7 +242,7 @@ def run(ctx, only_cases=None):
     # stream_gate reads=1 parks inside io.ReadFull, which holds its own copy of the reader: outside the model's granularity
     det = [(c, o) for c, o in done if c["mode"] in ("dispose_hist", "tunnel_seq", "tunnel_sched", "traffic_gate", "stream_gate")
            and not (c["mode"] == "stream_gate" and c["reads"] < 2) and o.get("key") not in ("dispose-hang", "tunnel-hang", "traffic-hang", "stream-gate-hang")]
-    terms = [case_value(c, o, tunnel_fixed, traffic_fixed) for c, o in det]
+    terms = [case_value(c, o, tunnel_fixed, traffic_fixed, stream_fixed) for c, o in det]
     mism = []
     try:
         res = vlib.model_eval("C16", terms)
@@ -258,8 +260,8 @@ def run(ctx, only_cases=None):
         c, o = det[i]
         if o["prop_ok"] or o["key"] in ctx.known:
             ctx.violation("model-mismatch:" + c["mode"],
-                          "Corr/C16.check: the Shutdown model (variant tunnel_fixed=%s traffic_fixed=%s) and the real code disagree on a replayed "
-                          "%s history" % (tunnel_fixed, traffic_fixed, c["mode"]), {"case": c, "observed": o}, found_input=not o["prop_ok"])
+                          "Corr/C16.check: the Shutdown model (variant tunnel_fixed=%s traffic_fixed=%s stream_fixed=%s) and the real code disagree on a replayed "
+                          "%s history" % (tunnel_fixed, traffic_fixed, stream_fixed, c["mode"]), {"case": c, "observed": o}, found_input=not o["prop_ok"])
 
     # ---- coverage ----
     nontriv = set()
@@ -301,17 +303,19 @@ def run(ctx, only_cases=None):
         "impl_property_failures_by_key": per_key,
         "goroutine_leak_reports": [o["leak"] for c, o in leaks][:5],
         "input_distribution": dist,
-        "tree_variant": {"tunnel_close_cas_retried": tunnel_fixed, "traffic_report_serialised": traffic_fixed},
+        "tree_variant": {"tunnel_close_cas_retried": tunnel_fixed, "traffic_report_serialised": traffic_fixed,
+                         "stream_onclose_keeps_reader": stream_fixed},
         "tunnel_race_double_bodies_seen": sum(o.get("doubles", 0) for c, o in done if c["mode"] == "tunnel_race"),
         "generated_file_changed": gen_changed,
     })
     ctx.assumptions += [
         "partial: 'no goroutine or timer remains' and 'no panic' are runtime facts, checked only by the harness oracle (goroutine-dump diff "
         "filtered to repository frames after unblocking I/O; recover around every operation); timers are not observed",
-        "theorems about Tunnel.Close and reportTrafficStats describe the repaired code (fixes/C16-*.diff); on a tree without the repairs the "
-        "harness compares with the pinned model variant and reports the known findings",
+        "theorems about Tunnel.Close, reportTrafficStats and StreamProcessor describe the repaired code (repository commits 2eb8bee, 8ffd47c, "
+        "cedd5da); on a tree where a repair is reverted the harness compares with the pinned model variant and the Go-side predicate "
+        "reports the failing schedule as a violation",
         "atomic-step granularity: one sync/atomic operation, one mutex-protected section, one collaborator call; the Go memory model below "
-        "that (data races on plain fields such as StreamProcessor.reader) is not modelled",
+        "that (Go-memory-model data races on plain fields) is not modelled",
         "reportTrafficStats is modelled for one of its two symmetric counters and without cloud-control failures (a failed Get/Update returns "
         "before lastReported is stored, which preserves the invariant); one bridge per mapping",
         "contention loops are probabilistic: a race that does not manifest in a run is carried by the proofs and the deterministic replays",
